@@ -92,3 +92,13 @@ func VerifMessage(c *Committee, sender int, instance, round uint64, phase Phase,
 }
 
 var _ = sym.Bool
+
+// verifSuppEq compares supplemental data field by field (the oracles do not
+// rely on the implementation's own comparison).
+func verifSuppEq(a, b *SupplementalData) bool {
+	eq := true
+	for i := range a.Commitments {
+		eq = sym.And(eq, a.Commitments[i] == b.Commitments[i])
+	}
+	return sym.And(eq, string(a.PowerTable.Bytes()) == string(b.PowerTable.Bytes()))
+}
